@@ -149,3 +149,154 @@ Proof. exact former_generated_witness_refused. Qed.
 Example C06_compat_example :
   compat {| g_os := (9, 5, 3); g_ns := (5, 5, 2); g_oc := (4, 2, 2); g_nc := (4, 2, 1); g_ch := 2 |} = true.
 Proof. exact compat_example. Qed.
+
+(* ---------- link with the downscaler layer of C07 (Link/LinkDownscale.v) ----------
+
+   The theorems above are instantiated with the executable downscalers of
+   PyrTiling.v over the functional array type [arr]; C07 models the package's
+   downscalers over nested lists [arr4] (shape (nc, nz, ny, nx), indexed
+   channel, z, y, x) and proves them equal to stride_spec / majority_spec /
+   avg_spec.  [arr_of4] reads a C07 array as a C06 array by indexing,
+   [arr4_of] tabulates back ([arr4_of (arr_of4 .. a) = a] on rect4 arrays);
+   [fx_of f = fac (list3 f) 0], ... are the factors as the C07 layer reads the
+   Python sequence (Dx, Dy, Dz); [get4z d a c (x, y, z)] reads a nested list at
+   integer coordinates. *)
+From NGS Require Import DType Convert Downscale AverageProofs LinkDownscale.
+
+(* The C06 downscalers ARE the C07 specifications, for all factors >= 1 (in
+   particular {1,2}^3) and every shape: as whole arrays, and voxel by voxel at
+   every in-range output voxel - striding: the voxel of stride_spec; majority:
+   the statistic is_majority / majority_ref of the C07 (clamped) block, the
+   voxel of majority_spec; averaging on integer data of type dt: mean_rhe of
+   the edge-padded block (outside value None), the voxel of avg_spec. *)
+Theorem C06_downscalers_are_C07_spec : forall f nc nz ny nx (V : arr4 Z),
+  (forall ax, 1 <= get3 ax f) -> rect4 nc nz ny nx V ->
+  let A := arr_of4 nc nz ny nx V in
+  let fx := fx_of f in let fy := fy_of f in let fz := fz_of f in
+  arr4_of (ds_stride f A) = stride_spec 0 fx fy fz nc nz ny nx V /\
+  map4 Some (arr4_of (ds_majority f A)) = majority_spec fx fy fz nc nz ny nx V /\
+  (forall dt, is_int dt = true -> Forall4 (in_range dt) V ->
+     map4 NI (arr4_of (ds_avg f A))
+     = avg_spec dt None fx fy fz nc nz ny nx (map4 QArith_base.inject_Z V)) /\
+  forall c p, 0 <= c < Z.of_nat nc ->
+    (forall ax, 0 <= get3 ax p < get3 ax (cdiv3 (sh3 nz ny nx) f)) ->
+    let c' := Z.to_nat c in
+    let z := Z.to_nat (get3 AZ p) in let y := Z.to_nat (get3 AY p) in
+    let x := Z.to_nat (get3 AX p) in
+    a_get (ds_stride f A) c p = get4z 0 (stride_spec 0 fx fy fz nc nz ny nx V) c p /\
+    is_majority (majority_block_at fx fy fz V c' z y x) (a_get (ds_majority f A) c p) /\
+    majority_ref (majority_block_at fx fy fz V c' z y x) = Some (a_get (ds_majority f A) c p) /\
+    get4z None (majority_spec fx fy fz nc nz ny nx V) c p = Some (a_get (ds_majority f A) c p) /\
+    (forall dt, is_int dt = true -> Forall4 (in_range dt) V ->
+       mean_rhe dt (block_values None fx fy fz nz ny nx (map4 QArith_base.inject_Z V) c' z y x)
+         = NI (a_get (ds_avg f A) c p) /\
+       get4z (NI 0) (avg_spec dt None fx fy fz nc nz ny nx (map4 QArith_base.inject_Z V)) c p
+         = NI (a_get (ds_avg f A) c p)).
+Proof. exact downscalers_are_C07_spec. Qed.
+Print Assumptions C06_downscalers_are_C07_spec.
+
+(* ... hence (C07_stride_spec, C07_majority_spec) they are what the C07 MODELS
+   of StridingDownscaler and MajorityDownscaler return *)
+Theorem C06_downscalers_are_C07_models : forall f nc nz ny nx (V : arr4 Z),
+  (forall ax, 1 <= get3 ax f) -> rect4 nc nz ny nx V ->
+  stride_model (list3 f) V = Ok (arr4_of (ds_stride f (arr_of4 nc nz ny nx V))) /\
+  majority_model (list3 f) nz ny nx V = Ok (arr4_of (ds_majority f (arr_of4 nc nz ny nx V))).
+Proof. exact downscalers_are_C07_models. Qed.
+Print Assumptions C06_downscalers_are_C07_models.
+
+(* ... and, on uint8 / uint16 / uint32 data and factors in {1,2}^3, what the
+   float64 MODEL of AveragingDownscaler (edge padding) returns.  Through
+   C07_avg_exact: depends on the four standard-library axioms of Flocq's reals. *)
+Theorem C06_average_is_C07_model : forall dt f nc nz ny nx (V : arr4 Z),
+  (forall ax, get3 ax f = 1 \/ get3 ax f = 2) ->
+  small_uint dt = true -> rect4 nc nz ny nx V -> Forall4 (in_range dt) V ->
+  avg_model dt None (list3 f) (map4 NI V)
+  = Ok (map4 NI (arr4_of (ds_avg f (arr_of4 nc nz ny nx V)))).
+Proof. exact link_avg_model. Qed.
+Print Assumptions C06_average_is_C07_model.
+
+(* C06_tiling_sound for the package's downscaler models.  The previous level is
+   the C07 array V of shape (nc, nz, ny, nx) with positive extents; a
+   transition of the real tiling that does not raise wrote, in every chunk, the
+   restriction of what the model of the package's downscaler computes on the
+   ENTIRE previous level: every voxel of every chunk buffer holds a written
+   value v, and the model's result holds v at the chunk's global position. *)
+Theorem C06_tiling_sound_C07 : forall dt nc nz ny nx (V : arr4 Z) g chunks,
+  small_uint dt = true -> rect4 nc nz ny nx V -> Forall4 (in_range dt) V ->
+  geom_pos g = true /\ g_os g = sh3 nz ny nx /\ g_ch g = Z.of_nat nc ->
+  tile_level ds_avg g (arr_of4 nc nz ny nx V) = Ok chunks ->
+  exists out, avg_model dt None (list3 (factors g)) (map4 NI V) = Ok out /\
+    out = avg_spec dt None (fx_of (factors g)) (fy_of (factors g)) (fz_of (factors g))
+                   nc nz ny nx (map4 QArith_base.inject_Z V) /\
+    Forall (fun ch => let '(lo, hi, buf) := ch in
+      exists idx, In idx (ndindex (chunk_range g)) /\ lo = new_lo g idx /\ hi = new_hi g idx /\
+        forall c p, 0 <= c < g_ch g -> (forall a, 0 <= get3 a p < get3 a (sub3 hi lo)) ->
+          exists v, b_get buf c p = PyrTiling.Val v /\ get4z (NI 0) out c (add3 lo p) = NI v)
+      chunks.
+Proof. exact tiling_sound_avg_model. Qed.
+Print Assumptions C06_tiling_sound_C07.
+
+(* the same for StridingDownscaler and MajorityDownscaler (any labels),
+   without axioms *)
+Theorem C06_tiling_sound_C07_stride : forall nc nz ny nx (V : arr4 Z) g chunks,
+  rect4 nc nz ny nx V ->
+  geom_pos g = true /\ g_os g = sh3 nz ny nx /\ g_ch g = Z.of_nat nc ->
+  tile_level ds_stride g (arr_of4 nc nz ny nx V) = Ok chunks ->
+  exists out, stride_model (list3 (factors g)) V = Ok out /\
+    Forall (fun ch => let '(lo, hi, buf) := ch in
+      exists idx, In idx (ndindex (chunk_range g)) /\ lo = new_lo g idx /\ hi = new_hi g idx /\
+        forall c p, 0 <= c < g_ch g -> (forall a, 0 <= get3 a p < get3 a (sub3 hi lo)) ->
+          exists v, b_get buf c p = PyrTiling.Val v /\ get4z 0 out c (add3 lo p) = v)
+      chunks.
+Proof. exact tiling_sound_stride_model. Qed.
+Print Assumptions C06_tiling_sound_C07_stride.
+
+Theorem C06_tiling_sound_C07_majority : forall nc nz ny nx (V : arr4 Z) g chunks,
+  rect4 nc nz ny nx V ->
+  geom_pos g = true /\ g_os g = sh3 nz ny nx /\ g_ch g = Z.of_nat nc ->
+  tile_level ds_majority g (arr_of4 nc nz ny nx V) = Ok chunks ->
+  exists out, majority_model (list3 (factors g)) nz ny nx V = Ok out /\
+    Forall (fun ch => let '(lo, hi, buf) := ch in
+      exists idx, In idx (ndindex (chunk_range g)) /\ lo = new_lo g idx /\ hi = new_hi g idx /\
+        forall c p, 0 <= c < g_ch g -> (forall a, 0 <= get3 a p < get3 a (sub3 hi lo)) ->
+          exists v, b_get buf c p = PyrTiling.Val v /\ get4z 0 out c (add3 lo p) = v)
+      chunks.
+Proof. exact tiling_sound_majority_model. Qed.
+Print Assumptions C06_tiling_sound_C07_majority.
+
+(* non-vacuity: concrete uint8 data / labels of shape (1, 1, 2, 3) and factors
+   (2, 2, 1) meet the hypotheses, both layers compute the same concrete arrays
+   (block (1, 2, 250, 255) -> 127; edge-padded block (4, 4, 7, 7) -> 5.5 -> 6;
+   labels (5, 2, 7, 7) -> 7, clipped block (2, 9) -> 2), and a transition on
+   that level is processed by the tiling *)
+Example C06_link_examples :
+  (forall ax, 1 <= get3 ax (2, 2, 1)) /\ f12 (2, 2, 1) /\
+  rect4 1 1 2 3 ex_V /\ rect4 1 1 2 3 ex_L /\
+  small_uint U8 = true /\ Forall4 (in_range U8) ex_V /\
+  arr4_of (ds_stride (2, 2, 1) (arr_of4 1 1 2 3 ex_L)) = [[[[5; 2]]]] /\
+  stride_model [2; 2; 1] ex_L = Ok [[[[5; 2]]]] /\
+  arr4_of (ds_majority (2, 2, 1) (arr_of4 1 1 2 3 ex_L)) = [[[[7; 2]]]] /\
+  majority_model [2; 2; 1] 1 2 3 ex_L = Ok [[[[7; 2]]]] /\
+  majority_spec 2 2 1 1 1 2 3 ex_L = [[[[Some 7; Some 2]]]] /\
+  arr4_of (ds_avg (2, 2, 1) (arr_of4 1 1 2 3 ex_V)) = [[[[127; 6]]]] /\
+  avg_model U8 None [2; 2; 1] (map4 NI ex_V) = Ok [[[[NI 127; NI 6]]]] /\
+  avg_spec U8 None 2 2 1 1 1 2 3 (map4 QArith_base.inject_Z ex_V) = [[[[NI 127; NI 6]]]].
+Proof. exact link_examples. Qed.
+
+Example C06_link_tiling_examples :
+  (geom_pos ex_geom = true /\ g_os ex_geom = sh3 1 2 3 /\ g_ch ex_geom = Z.of_nat 1) /\
+  factors ex_geom = (2, 2, 1) /\ compat ex_geom = true /\
+  (exists chunks, tile_level ds_avg ex_geom (arr_of4 1 1 2 3 ex_V) = Ok chunks /\ length chunks = 2%nat) /\
+  (exists chunks, tile_level ds_stride ex_geom (arr_of4 1 1 2 3 ex_L) = Ok chunks /\ length chunks = 2%nat) /\
+  (exists chunks, tile_level ds_majority ex_geom (arr_of4 1 1 2 3 ex_L) = Ok chunks /\ length chunks = 2%nat).
+Proof. exact tiling_examples. Qed.
+
+(* the two conversions are inverse to each other (on arrays of the stated
+   shape; arr_eq = same extents, same voxels inside them) *)
+Theorem C06_array_conversions :
+  (forall nc nz ny nx (a : arr4 Z), rect4 nc nz ny nx a -> arr4_of (arr_of4 nc nz ny nx a) = a) /\
+  (forall a : arr, 0 <= a_c a -> (forall ax, 0 <= get3 ax (a_sh a)) ->
+     arr_eq (arr_of4 (Z.to_nat (a_c a)) (Z.to_nat (get3 AZ (a_sh a))) (Z.to_nat (get3 AY (a_sh a)))
+                     (Z.to_nat (get3 AX (a_sh a))) (arr4_of a)) a).
+Proof. exact (conj arr4_of_arr_of4 arr_of4_arr4_of). Qed.
+Print Assumptions C06_array_conversions.
